@@ -40,7 +40,7 @@ SPEC = dict(
     require_outcomes=['sigparse-empty:ok', 'sigparse-empty:err', 'sigparse:ok', 'sigparse:err', 'aggrpdu-v1:ok', 'aggrpdu-v1:err', 'aggrpdu-v2:ok', 'aggrpdu-v2:err',
                       'extpdu-v1:ok', 'extpdu-v1:err', 'extpdu-v2:ok', 'extpdu-v2:err', 'pubfile:ok', 'pubfile:err', 'tlv:ok', 'tlv:err', 'ftlv:ok', 'ftlv:err',
                       'tlvelem:ok', 'tlvelem:err', 'tlvelem-expand:ok', 'tlvelem-expand:err', 'pubstring:ok', 'pubstring:err', 'uri:ok', 'uri:err',
-                      'hashname:ok', 'verify:OK', 'verify:NA-or-FAIL', 'pduverify:ok', 'debuglog:used', 'selfcheck:refseed:accepted'],
+                      'hashname:ok', 'hashname:err', 'verify:OK', 'verify:NA-or-FAIL', 'pduverify:ok', 'debuglog:used', 'selfcheck:refseed:accepted'],
     assumptions=['sanitizer instrumentation observes every out-of-bounds access, use after free and double free that leaves the exactly sized heap block or a live SDK object',
                  'all SDK allocations go through KSI_malloc/KSI_calloc/KSI_free (allocation funnel)',
                  'the predefined policies are the 7 exported KSI_VERIFICATION_POLICY_* objects'],
